@@ -947,19 +947,27 @@ func (p *Parser) parseQualifiedName() (string, error) {
 	}
 	name := p.currentToken.Literal
 	p.advance()
+	if !p.isType(models.TokenTypePeriod) {
+		return name, nil
+	}
 
-	// Check for schema.table or db.schema.table
+	// Check for schema.table or db.schema.table. The parts are collected in a
+	// builder: the number of parts is not bounded here, and re-copying the name
+	// for every part would make a long dotted name quadratic.
+	var sb strings.Builder
+	sb.WriteString(name)
 	for p.isType(models.TokenTypePeriod) {
 		p.advance() // Consume .
 		// After a qualifier a generic keyword is a name (information_schema.tables)
 		if !p.isIdentifier() && !p.isNonReservedKeyword() && !p.isType(models.TokenTypeKeyword) {
 			return "", p.expectedError("identifier after .")
 		}
-		name = name + "." + p.currentToken.Literal
+		sb.WriteByte('.')
+		sb.WriteString(p.currentToken.Literal)
 		p.advance()
 	}
 
-	return name, nil
+	return sb.String(), nil
 }
 
 // Accepts IDENT or non-reserved keywords that can be used as table names
